@@ -137,6 +137,47 @@ def gen_condition_template(rng, n):
     return {"template": t, "extra": gen_extra(rng, decls)}
 
 
+def gen_chain_template(rng, n=None):
+    """a LONG chain of conditions (Tier0 <- Tier1 <- ... <- Tier(n-1)): each refers to the next through Condition / Fn::Not /
+    Fn::And / Fn::Or, the last one is an Fn::Equals; sometimes the last refers back to the first (one long cycle) or a link names
+    an undeclared condition.  Declared ascending, descending or shuffled; a resource is gated on Tier0, another uses Fn::If on it.
+    (Depth is bounded by the interpreter: each link costs ~6 Python frames in the code, so n <= 70.)"""
+    n = n or rng.choice([12, 25, 34, 35, 40, 48, 64, 70])
+    names = [f"Tier{i}" for i in range(n)]
+    truth = rng.random() < 0.5
+    conds = {}
+    for i, c in enumerate(names[:-1]):
+        nxt = {"Condition": names[i + 1]}
+        k = rng.random()
+        if k < 0.55:
+            conds[c] = nxt
+        elif k < 0.75:
+            conds[c] = {"Fn::Not": [nxt]}
+        elif k < 0.88:
+            conds[c] = {"Fn::And": [{"Fn::Equals": ["a", "a"]}, nxt]}
+        else:
+            conds[c] = {"Fn::Or": [{"Fn::Equals": ["a", "b"]}, nxt]}
+    last = rng.random()
+    if last < 0.75:
+        conds[names[-1]] = {"Fn::Equals": ["x", "x" if truth else "y"]}
+    elif last < 0.9:
+        conds[names[-1]] = {"Fn::Not": [{"Condition": names[0]}]}          # one cycle through the whole chain
+    else:
+        conds[names[-1]] = {"Condition": "NotDeclaredAnywhere"}
+    order = list(names)
+    how = rng.choice(["ascending", "descending", "shuffled"])
+    if how == "descending":
+        order.reverse()
+    elif how == "shuffled":
+        rng.shuffle(order)
+    t = {"Conditions": {c: conds[c] for c in order},
+         "Resources": {"Gated": {"Type": "Custom::Thing", "Condition": names[0], "Properties": {"A": "x"}},
+                       "Mid": {"Type": "Custom::Thing", "Condition": names[n // 2], "Properties": {"A": "y"}},
+                       "Pick": {"Type": "AWS::S3::Bucket", "Properties": {"BucketName": {"Fn::If": [names[0], "yes", "no"]},
+                                                                            "Tags": [{"Key": "k", "Value": {"Fn::If": [names[n - 2], "t", "f"]}}]}}}}
+    return {"template": t, "extra": {}}
+
+
 def statement(rng, g, d):
     st = {"Effect": rng.choice(["Allow", "Deny", "allow"])}
     if rng.random() < 0.5:
